@@ -30,7 +30,7 @@ EXHAUSTIVE_SUBDOMAINS = ["every single cut and every pair of cuts of each genera
 ASSUMPTIONS = ["streams start at a frame boundary and end with a sentinel frame, so every judged frame is eventually followed "
                "by a frame start", "end-to-end sessions whose bytes were not all delivered before the receive timeout are "
                "counted as inconclusive sessions, never as violations"]
-REQUIRED = ["e2e_quiet_spells_between_reads", "two_clients_parsing_in_two_threads", "e2e_empty_parts_in_mid_stream", "batches_read_back_after_later_reads", "beast_single", "beast_double", "beast_random", "beast_cut_inside_escape", "beast_cut_after_frame_start",
+REQUIRED = ["e2e_quiet_spells_between_reads", "beast_run_of_64_or_more_non_mode_s_frames", "two_clients_parsing_in_two_threads", "e2e_empty_parts_in_mid_stream", "batches_read_back_after_later_reads", "beast_single", "beast_double", "beast_random", "beast_cut_inside_escape", "beast_cut_after_frame_start",
             "beast_rssi", "raw_single", "raw_double", "sky_single", "sky_double", "netsource", "netsource_commb_backlog_over_1000", "second_client_alive", "e2e_sessions"]
 # e2e_midframe_boundary (a recv() boundary inside a frame was actually observed) is reported in the evidence but not
 # required: TCP may coalesce pieces on a loaded machine and that must not turn the verdict inconclusive
@@ -604,6 +604,20 @@ def cases(ctx):
     for fmt, mk in (("beast", beast_specs), ("raw", raw_specs), ("sky", sky_specs)):
         if ctx.mine(i):
             yield "threads2", {"kind": fmt, "specs2": [mk(rng, 12), mk(rng, 12)], "rounds": 40 if quick else 400}
+        i += 1
+    # a long run of Beast frames that are NOT Mode S messages (Mode A/C replies, status frames: types '1' and '4') between two
+    # Mode S frames, cut everywhere: the feed is in sync all along - a "lost alignment after N rejected frames" heuristic is not
+    for fmt in ("beast", "beast_rssi"):
+        if ctx.mine(i):
+            specs = beast_specs(rng, 2, force_1a=False)[:2]
+            run = []
+            for _ in range(rng.choice((64, 65, 70, 90))):
+                run.append({"t": rng.choice((0x31, 0x34)), "ts": rng.randbytes(6).hex(), "sig": rng.randrange(1, 256),
+                            "msg": rng.randbytes(2).hex(), "emit": False})
+            specs = specs[:1] + run + beast_specs(rng, 3, force_1a=False)
+            yield "stream", {"kind": fmt, "specs": specs, "mode": "single"}
+            yield "stream", {"kind": fmt, "specs": specs, "mode": "random", "n": 20}
+            ctx.hit("beast_run_of_64_or_more_non_mode_s_frames")
         i += 1
     for fmt, mk in (("beast", beast_specs), ("beast_rssi", beast_specs), ("raw", raw_specs), ("sky", sky_specs)):
         for sidx in range(nstreams if fmt != "beast_rssi" else max(1, nstreams // 3)):
